@@ -307,7 +307,7 @@ func arith(r *engine.Run) {
 			}
 		})
 	}
-	r.Min(rule, 12)
+	r.Min(rule, 8)
 }
 
 func sizeOf(t types.Type) int64 {
